@@ -22,6 +22,7 @@ package dispatcher
 
 import (
 	"errors"
+	"strings"
 
 	errorsmod "cosmossdk.io/errors"
 
@@ -35,6 +36,12 @@ func (a *AmountDispatched) IsPositive() bool {
 func (a DispatchedAmountEntry) Validate() error {
 	if a.Denom == "" {
 		return errors.New("cannot set empty denom")
+	}
+
+	// NOTE: the denom is used as a non terminal element of composite
+	// store keys, where the null character is the string delimiter.
+	if strings.Contains(a.Denom, "\x00") {
+		return errors.New("denom cannot contain the null character")
 	}
 
 	if a.SourceId == nil {
